@@ -143,8 +143,15 @@ var pathCases = []pathCase{
 	{"t.Self().Ptr.Kids[0].Get()", func(t T) string { return t.Self().Ptr.Kids[0].Get() }},
 }
 
+type nilEmb struct {
+	*Base
+	Own string
+}
+
 func ctxFor(t T) *plush.Context {
 	ctx := plush.NewContext()
+	ctx.Set("ne", nilEmb{Own: "own"})
+	ctx.Set("nep", &nilEmb{Own: "own"})
 	ctx.Set("t", t)
 	ctx.Set("ts", t.Kids)
 	ctx.Set("m", t.M)
@@ -244,6 +251,8 @@ func Failures() {
 		"t.Kids[5].Name", "t.Kids[2].Name", "t.Arr[2].Name", "t.M[\"nope\"].Name", "t.Ptr.Ptr.Name", "t.Ptr.Ptr.Ptr.Name",
 		"t.secret", "t.Missing", "t.Kids[0].Missing", "t.Missing.Name", "t.Name.Name", "t.Nope()", "t.Kids[0].Nope()",
 		"ts[9].Name", "m[\"zz\"].Kids[0].Name", "t.Kids[0].secret", "t.Ptr.Ptr.Get()", "t.N.Name", "t.Kids.Name",
+		// a pointer receiver without such a method (also a field name used as a method); a field promoted through a nil embedded pointer
+		"p.Nope()", "t.Ptr.Nope()", "p.Name()", "t.Ptr.Nope(t.Name)", "ne.BName", "ne.Tag()", "nep.BName",
 	}
 	e := exprs[vrt.Choice(len(exprs))]
 	got, err := render("[<%= "+e+" %>]", ctxFor(t))
